@@ -54,7 +54,7 @@ J World::to_json() const {
         ss.set(s.first, o);
     }
     j.set("socks", ss);
-    j.set("stdout_kind", stdout_kind); j.set("has_ctty", has_ctty); j.set("disk_free", (long long)disk_free);
+    j.set("stdout_kind", stdout_kind); j.set("has_ctty", has_ctty); j.set("disk_free", (long long)disk_free); if (fsize_limit >= 0) j.set("fsize_limit", fsize_limit);
     return j;
 }
 
@@ -105,7 +105,7 @@ void World::from_json(const J &j) {
             socks[p.first] = s;
         }
     }
-    stdout_kind = (int)j.geti("stdout_kind", d.stdout_kind); has_ctty = j.getb("has_ctty", true); disk_free = j.geti("disk_free", -1);
+    stdout_kind = (int)j.geti("stdout_kind", d.stdout_kind); has_ctty = j.getb("has_ctty", true); disk_free = j.geti("disk_free", -1); fsize_limit = j.geti("fsize_limit", -1);
     render_proc();
 }
 
@@ -170,6 +170,7 @@ J Op::to_json() const {
         for (auto &t : threads) { J c = J::arr(); for (auto &e : t) c.push(e.to_json()); ts.push(c); }
         j.set("threads", ts); j.set("policy", policy); j.set("pct_d", pct_d); j.set("sched_seed", (unsigned long long)sched_seed);
         if (have_schedule) { J s = J::arr(); for (int c : schedule) s.push(J(c)); j.set("schedule", s); }
+        if (app_opens) j.set("app_opens", app_opens);
     } else if (op == "ForkExec") {
         j.set("call", ex.to_json()); j.set("fork_point", fork_point); j.set("child", child_ex.to_json()); j.set("grandchild", grandchild);
         if (!extra_calls.empty()) { J xs = J::arr(); for (size_t i = 0; i < extra_calls.size(); i++) { J x = J::obj(); x.set("call", extra_calls[i].to_json()); x.set("point", extra_points[i]); xs.push(x); } j.set("others", xs); }
@@ -184,6 +185,7 @@ Op Op::from_json(const J &j) {
         for (auto &t : j.at("threads").a) { std::vector<ExecOp> c; for (auto &e : t.a) c.push_back(ExecOp::from_json(e)); o.threads.push_back(c); }
         o.policy = (int)j.geti("policy"); o.pct_d = (int)j.geti("pct_d", 1); o.sched_seed = (uint64_t)j.geti("sched_seed");
         if (j.has("schedule")) { o.have_schedule = true; for (auto &c : j.at("schedule").a) o.schedule.push_back((int)c.i); }
+        o.app_opens = (int)j.geti("app_opens", 0);
     } else if (o.op == "ForkExec") {
         o.ex = ExecOp::from_json(j.at("call")); o.fork_point = (int)j.geti("fork_point"); o.child_ex = ExecOp::from_json(j.at("child")); o.grandchild = j.getb("grandchild");
         if (j.has("others")) for (auto &x : j.at("others").a) { o.extra_calls.push_back(ExecOp::from_json(x.at("call"))); o.extra_points.push_back((int)x.geti("point")); }
